@@ -921,9 +921,17 @@ class NPProxy(types.ModuleType):
 
     def zeros(self, shape, *a, **k):
         r = np.zeros(shape, *a, **k)
-        if KEEP_OBJECT[0] and r.ndim == 1 and r.dtype.kind == 'f' and r.size <= 16:
+        if KEEP_OBJECT[0] and r.ndim <= 2 and r.dtype.kind == 'f' and r.size <= 64:
             return _wrap(r.astype(object))
         return r
+
+    def linspace(self, start, stop, num=50, **k):
+        if _has_sym(start) or _has_sym(stop):
+            num = int(num)
+            if num == 1:
+                return symarray([start])
+            return symarray([start + (stop - start) * i / (num - 1) for i in range(num)])
+        return np.linspace(start, stop, num, **k)
 
     def ones(self, shape, *a, **k):
         r = np.ones(shape, *a, **k)
@@ -1036,14 +1044,19 @@ class RandomProxy:
         return symarray([one() for _ in range(int(np.prod(size)))]).reshape(size)
 
     def permutation(self, n):
+        """every permutation of range(n) is explored: the choice is made by unconstrained fresh booleans, so each one forks the path"""
         n = int(n)
-        vs = [z3.Int('perm!%d!%d' % (ST.nfresh, i)) for i in range(n)]
-        ST.nfresh += 1
-        for v in vs:
-            assume(z3.And(v >= 0, v < n))
-        if n > 1:
-            assume(z3.Distinct(*vs))
-        return vs
+        remaining = list(range(n))
+        out = []
+        while remaining:
+            pick = 0
+            while pick < len(remaining) - 1:
+                ST.nfresh += 1
+                if bool(SB(z3.Bool('perm!%d' % ST.nfresh))):
+                    break
+                pick += 1
+            out.append(remaining.pop(pick))
+        return np.array(out, dtype=int)
 
     def __getattr__(self, k):
         raise Unsupported('np.random.%s on the symbolic path' % k)
@@ -1098,6 +1111,14 @@ def _sym_type(x):
     return t
 
 
+def _sym_float(v=0.0):
+    if _is_sym(v):
+        return v
+    if isinstance(v, np.ndarray) and v.dtype == object and v.size == 1 and _is_sym(v.flat[0]):
+        return v.flat[0]
+    return float(v)
+
+
 class patched:
     """context manager: replace the module globals np / math of the given hydrodiy modules by the proxies"""
 
@@ -1113,6 +1134,9 @@ class patched:
                 if hasattr(m, name):
                     self.saved.append((m, name, getattr(m, name)))
                     setattr(m, name, proxy)
+            if m.__name__.endswith(('sutils', 'boxplot')):
+                self.saved.append((m, 'float', _MISSING))
+                m.float = _sym_float
             if m.__name__.endswith('dutils'):
                 # dutils.cast does type(x)(y): for a python float x and a symbolic y the value passes through unchanged
                 self.saved.append((m, 'type', _MISSING))
